@@ -12,7 +12,7 @@ LEVEL = 'model_checking'
 RULE = ('(layout: the clause p(X,Y) :- q(X,_), r(_,Y) with its two anonymous variables at every pair of grid positions, lines 2..25 [40] x columns 0..15 [25]; comments: every ordered pair of 23 comment-like payloads of other languages in comment lines and quoted atoms around four facts) (long atoms of 250..1030 characters with a character that needs escaping at every offset around 256, 512, 1024; compounds named like operators with numeral arguments) every atom text of length <= 3 [thorough: 4] over the 23 characters {/ * a Z 0 _ space \' " LF CR # % ( ) , . : é 五 ﬁ(ligature) ％(full-width) and a character outside the BMP} (quoted when '
         'the lexer requires it, also quoted when it does not), and every term of depth <= 2 over {6 atom texts, 0 7 123, '
         'f/1, g/2, zero-argument compounds f() and a quoted one, [] [t] [t,u] [t|V] [t,u|V], _, named variables} - and pairs of literals that print alike (a compound or list next to the quoted atom spelling it) - each literal compiled as a fact argument, as a head '
-        'argument of a rule, and as a body-goal argument, each batch also compiled from a file holding the same text (identical code required), then (1) read back through a query: structure equals the '
+        'argument of a rule, and as a body-goal argument, each batch also compiled from a file holding the same text (identical code required), then (1) [positions: fact argument, head argument, right-hand side of =, goal argument, and the last two again behind a disjunction / an if-then-else] read back through a query: structure equals the '
         'literal\'s term and to_python equals the reference value (name / int / list / (name,[args]) / None) - every returned value is then changed in place by the caller (all lists inside appended to), which no later conversion on the same engine may show; (every check also on an engine that was used and cleared before the program was loaded) (2) the '
         'same term built with atom/functor/listpair/makelist through the API is used as query argument: exactly one '
         'answer, and the compiled literal read back unifies with it; (3) atoms: yp.atom(n) is yp.atom(n), also when the atom reaches the caller through findall/3, once/1, call/2 or a dynamic fact; atoms and whole terms built on two '
@@ -119,7 +119,13 @@ def to_engine_makelist(yp, t, vm):
             items.append(cur[2][0])
             cur = cur[2][1]
         if cur == NIL:
-            return yp.makelist([to_engine_makelist(yp, x, vm) for x in items])
+            mine = [to_engine_makelist(yp, x, vm) for x in items]
+            before = list(mine)
+            r = yp.makelist(mine)
+            if len(mine) != len(before) or any(a is not b for a, b in zip(mine, before)):
+                # the Python list handed to makelist is the caller's (a row of its own table): it is read, not consumed
+                raise CallersListChanged('yp.makelist changed the Python list it was given: %d element(s) before, %d after' % (len(before), len(mine)))
+            return r
         r = to_engine_makelist(yp, cur, vm)
         for x in reversed(items):
             r = yp.listpair(to_engine_makelist(yp, x, vm), r)
@@ -135,6 +141,10 @@ def to_engine_makelist(yp, t, vm):
 
 
 class FileDiffers(Exception):
+    pass
+
+
+class CallersListChanged(Exception):
     pass
 
 
@@ -159,6 +169,9 @@ def check_batch(batch):
         clauses_text.append('h%d(%s) :- true.' % (j, lit))
         clauses_text.append('b%d(Out) :- Out = %s.' % (j, lit))
         clauses_text.append('g%d(Out) :- ident(%s, Out).' % (j, lit))
+        # ... and in a goal BEHIND a disjunction / an if-then-else (the continuation is compiled once per branch)
+        clauses_text.append('d%d(Out) :- ( never_defined ; true ), Out = %s.' % (j, lit))
+        clauses_text.append('e%d(Out) :- ( never_defined -> true ; true ), ident(%s, Out).' % (j, lit))
     clauses_text.append('ident(Q, Q).')
     src = '\n'.join(clauses_text) + '\n'
     results = []
@@ -248,7 +261,7 @@ def check_literal(yp, yp2, j, cls, term, text):
     except ValueError:
         has_py = False
     steps = 0
-    for pred in ('l', 'h', 'b', 'g'):
+    for pred in ('l', 'h', 'b', 'g', 'd', 'e'):
         x = yp.variable()
         rows = []
         for _ in yp.query('%s%d' % (pred, j), [x]):
@@ -258,7 +271,7 @@ def check_literal(yp, yp2, j, cls, term, text):
                 return ('violation', 'to_python-raises:' + pred, 'literal %s: to_python of the answer raised %r' % (lit, e), None, steps)
             rows.append((impl.observe([x]), pyv))
         steps += 1
-        where = {'l': 'fact argument', 'h': 'head argument of a rule', 'b': 'right-hand side of = in a body', 'g': 'body-goal argument'}[pred]
+        where = {'l': 'fact argument', 'h': 'head argument of a rule', 'b': 'right-hand side of = in a body', 'g': 'body-goal argument', 'd': 'right-hand side of = behind a disjunction', 'e': 'body-goal argument behind an if-then-else'}[pred]
         if len(rows) != 1:
             return ('violation', 'read-back-count:' + pred, 'literal %s as %s: %d answers instead of 1' % (lit, where, len(rows)), None, steps)
         if rows[0][0] != want:
